@@ -605,6 +605,9 @@ void execute_c05(const Plan &plan, Verdict &v) {
                 msgs.back().term = t[clampl(op.arg(0), 0, 2)];
                 in_msg = false;
             }
+        } else if (op.kind == "over") {
+            calls.push_back({-1});   // an oversize chunk delivered as a call of its own
+            calls.push_back({});
         } else if (op.kind == "call") {
             calls.push_back({});
         } else if (op.kind == "cuts") {
@@ -659,6 +662,7 @@ void execute_c05(const Plan &plan, Verdict &v) {
     // an unterminated-quote fragment swallows whatever follows it in the same call (a later quote would complete the string):
     // it is only a malformed list when it ends the last message of its input call
     for (auto &call : calls) {
+        if (call.size() == 1 && call[0] == -1) continue;
         for (size_t ci2 = 0; ci2 < call.size(); ci2++) {
             const PlannedMsg &m = msgs[(size_t) call[ci2]];
             if (m.unit_idx.empty()) continue;
@@ -741,10 +745,11 @@ void execute_c05(const Plan &plan, Verdict &v) {
         std::string t = "U" + std::to_string(idx);
         for (size_t k = 0; k < pu.items.size(); k++) {
             const Item &it = pu.items[k];
+            auto ws = [](int n) { return n == 3 ? std::string("\t") : std::string((size_t) n, ' '); };
             if (k == 0)
-                t += std::string((size_t) it.ws_after + 1, ' ');
+                t += " " + ws(it.ws_after);
             else
-                t += std::string((size_t) it.ws_before, ' ') + "," + std::string((size_t) it.ws_after, ' ');
+                t += ws(it.ws_before) + "," + ws(it.ws_after);
             if (k > 0 && it.ws_before) COUNT("probe_blank_before_comma");
             t += it.lit;
         }
@@ -761,6 +766,21 @@ void execute_c05(const Plan &plan, Verdict &v) {
     size_t ci = 0;
     for (auto &call : calls) {
         if (v.violated) break;
+        if (call.size() == 1 && call[0] == -1) {
+            // more bytes than the buffer holds in one call: -363, buffer invalidated, FALSE returned
+            size_t e0 = w.errs.size();
+            bool ret = w.input(std::string((size_t) cfg.inbuf + 5, 'Z'));
+            int n363 = 0, nother = 0;
+            for (size_t e = e0; e < w.errs.size(); e++) {
+                if (w.errs[e].code == -363) n363++;
+                else if (w.errs[e].code != 0 && w.errs[e].code != -350) nother++;
+            }
+            COUNT("fault_oversize_chunk");
+            if (ret || n363 != 1 || nother || w.ctx->buffer.position != 0)
+                v.fail("return-value", fmt("overrun ret=%d n363=%d other=%d pos=%zu", ret, n363, nother, w.ctx->buffer.position),
+                       fmt("a call that overran the input buffer returned %d, raised %d x -363 and %d other code(s), left %zu bytes buffered", ret, n363, nother, w.ctx->buffer.position));
+            continue;
+        }
         std::string data;
         for (int mi : call) {
             const PlannedMsg &m = msgs[(size_t) mi];
@@ -771,6 +791,7 @@ void execute_c05(const Plan &plan, Verdict &v) {
             data += m.term;
         }
         if (data.empty()) continue;
+        size_t calls_before = w.calls.size();
         if (call.size() >= 2) COUNT("probe_several_messages_in_one_call");
         // one call if it fits, otherwise (or when cuts are given) segmented
         size_t pos = 0;
@@ -806,7 +827,7 @@ void execute_c05(const Plan &plan, Verdict &v) {
         // lexer rejects would otherwise go unnoticed, because then no reader is ever called)
         {
             bool call_overran = false;
-            for (auto &cr : w.calls) call_overran |= cr.overrun;
+            for (size_t cidx = calls_before; cidx < w.calls.size(); cidx++) call_overran |= w.calls[cidx].overrun;
             for (int mi : call) {
                 const PlannedMsg &m = msgs[(size_t) mi];
                 for (int ui2 : m.unit_idx) {
@@ -934,7 +955,7 @@ void generate_c05(Rng &r, const GenOpts &g, Plan &p) {
     }
     long ncalls = r.chance(2, 3) ? 1 : r.range(2, 3);
     for (long c = 0; c < ncalls; c++) {
-        if (c) p.ops.push_back(Op("call"));
+        if (c) p.ops.push_back(Op(r.chance(1, 6) ? "over" : "call"));
         long nm = r.chance(2, 3) ? 1 : r.range(2, 3);
         for (long m = 0; m < nm; m++) {
             long nu = r.chance(1, 2) ? 1 : r.range(2, 4);
@@ -970,8 +991,8 @@ void generate_c05(Rng &r, const GenOpts &g, Plan &p) {
                         }
                     }
                     if (avoid_number_type && k < (long) sig.size() && sig[(size_t) k].reader == R_NUMBER && (cls == C_STR || cls == C_BLK || cls == C_EXPR)) cls = C_DEC;
-                    long wsb = (!avoid_ws && r.chance(1, 6)) ? r.range(1, 2) : 0;
-                    long wsa = r.chance(1, 4) ? r.range(1, 2) : 0;
+                    long wsb = (!avoid_ws && r.chance(1, 6)) ? r.range(1, 3) : 0;
+                    long wsa = r.chance(1, 4) ? r.range(1, 3) : 0;
                     p.ops.push_back(Op("p", {cls, wsb, wsa}, gen_lit(r, cls, avoid_dot)));
                 }
                 if (u == nu - 1 && r.chance(1, 8)) {
